@@ -129,12 +129,28 @@ def run(prog, rep):
                     bad.append('comparison operands are not (own text, argument): %s' % e.short(r))
                     continue
                 bad.extend(text_rule(e, s, sides[0], optional))
+                if not is_arg_text(others[0]):
+                    bad.append('the stored text is not compared with the argument itself but with a value computed from it (truncation, padding, re-encoding ...): %s' % e.short(others[0], 160))
             rep.ob('expose:%s:eq:%s' % (role, 'refstr' if '&str' in im['trait'] else 'str'), 'EXPOSE', fn, facts.bodies[fn]['span'],
                    '%s == string compares the stored text%s with the argument' % (role, ' ("und" iff empty)' if optional else ''), not bad and segs,
                    detail='\n'.join(bad), how='%d paths' % len(segs))
     rep.floor('FromStr impls of subtag types', n_fromstr, 4)
     rep.floor('as_str / Display / PartialEq<str> of subtag types', n_asstr + n_disp + n_eq, 12)
     language_empty(prog, rep, roles)
+
+
+def is_arg_text(v, depth=0):
+    """v designates the string argument (parameter 2) itself, through references / deref / as_str / as_bytes only"""
+    if depth > 12 or not isinstance(v, tuple) or not v:
+        return False
+    k = v[0]
+    if k == 'param':
+        return v[1] == 2
+    if k in ('ref', 'cref', 'init', 'P'):
+        return is_arg_text(v[1], depth + 1)
+    if k == 'pure' and v[1].split('::')[-1] in ('deref', 'as_str', 'as_ref', 'as_bytes', 'borrow') and len(v[2]) == 1:
+        return is_arg_text(v[2][0], depth + 1)
+    return False
 
 
 def involves_param(v, i):
